@@ -509,6 +509,19 @@ def curve_antenna(draw, env_kinds=('free', 'ideal'), nsrc=(1, 2), src_form='any'
                 if draw(st.booleans()):
                     w['p1'], w['p2'] = w['p2'], w['p1']
                 wires_after.append(w)
+        elif attach and shape == 'closed' and draw(st.booleans()):
+            # a wire on the point where the full circle closes (three ends meet there; with permuted tags the wire
+            # may come before the loop)
+            nn = draw(st.integers(1, 4))
+            d = np.array([0.0, draw(st.sampled_from([1.0, -1.0])), 0.0])
+            p = pts[0]
+            q = p + d * nn * sl * lam
+            w = dict(type='wire', n=nn, p1=[float(x) for x in p], p2=[r6(x) for x in q], r=r6(r * lam), tag=None, taper=0,
+                     tmin=None, tmax=None)
+            if draw(st.booleans()):
+                w['p1'], w['p2'] = w['p2'], w['p1']
+            wires_after.append(w)
+            info['arc'] = 'closed+wire'
         zmin = float(pts[:, 2].min())
         lift_needed = shape != 'half-on-ground'
     else:
@@ -544,7 +557,10 @@ def curve_antenna(draw, env_kinds=('free', 'ideal'), nsrc=(1, 2), src_form='any'
             wires_after.append(w)
         zmin = 0.0
         lift_needed = not grounded_helix
-    objs += wires_after
+    if info.get('arc') == 'closed+wire' and draw(st.booleans()):
+        objs = wires_after + objs             # the wire is listed (and, with automatic tags, numbered) before the loop
+    else:
+        objs += wires_after
     case = {'f': f, 'env': env, 'objs': objs, 'xforms': xforms, 'scales': [], 'sources': [], 'loads': []}
     style = draw(tags(objs, tag_styles or ('auto', 'consecutive', 'sparse', 'permuted', 'mixed')))
     if ground and lift_needed:
